@@ -142,8 +142,16 @@ pub fn gen_pure(seed: u64, thorough: bool, out: &Sink) {
 }
 
 pub fn pool_id(k: u64) -> OrderId {
-    // ids 1..: both id families
-    if k % 5 == 4 { OrderId::Ulid(ulid::Ulid(k as u128)) } else { OrderId::from_u64(k) }
+    // ids 1..: both id families; every id with k % 5 == 3 is the *twin* of its predecessor: the same 128
+    // bits in the other format (two different ids: different variant, different text and JSON form)
+    if k % 5 == 4 {
+        OrderId::Ulid(ulid::Ulid(k as u128))
+    } else if k % 5 == 3 {
+        let b = OrderId::from_u64(k - 1).as_bytes();
+        OrderId::Ulid(ulid::Ulid(u128::from_be_bytes(b)))
+    } else {
+        OrderId::from_u64(k)
+    }
 }
 
 pub fn random_order(r: &mut Rng, id: OrderId, price: u64, zero_ok: bool, big: bool) -> Order {
@@ -216,9 +224,13 @@ pub fn gen_seq(seed: u64, ncases: u64, maxlen: u64, zero_ok: bool, rebuilds: boo
                 let cands: Vec<OrderId> = (1..=npool).map(pool_id).filter(|i| !live.contains(i)).collect();
                 if cands.is_empty() { continue; }
                 let id = if rebuilt { fresh += 1; pool_id(fresh) } else { *r.pick(&cands) };
-                let o = random_order(&mut r, id, price, zero_ok, big);
+                // with rebuilds (E-seqr) one order in six carries a price other than the level's: legal
+                // (add_order does not look at it) and every rebuild route must keep it and the level's own price
+                let rnd_price = r.range(1, 1 << 20);
+                let oprice = if rebuilds && r.chance(1, 6) { *r.pick(&[price + 1, price.saturating_sub(1), 0, rnd_price]) } else { price };
+                let o = random_order(&mut r, id, oprice, zero_ok, big);
                 let supplied = o.visible_quantity() as u128 + o.hidden_quantity() as u128;
-                if (total + supplied) * (price as u128) >= (1u128 << 63) { continue; }
+                if (total + supplied) * (price.max(oprice).max(1 << 20) as u128) >= (1u128 << 63) { continue; }
                 total += supplied;
                 out.push(format!("add {}", show_order(&o)));
                 lvl.add_order(o);
